@@ -14,8 +14,8 @@ structure Lift (R : Sess → List SOut → Sess → Prop) (P : Sess → Prop) : 
   caught : ∀ {s o s'}, R s o s' → R s (o.map toCaught) s'
   api : ∀ {s} a, P s → R s (apiStep s a).2 (apiStep s a).1
   userError : ∀ {s}, P s → R s (emitCb s .userError).2 (emitCb s .userError).1
-  invoke : ∀ {s : Sess} {sub idx : Nat} {r : SubRec} (args : Args) (kw : List (Key × KwVal)), P s → (alookup sub s.subs).bind (·[idx]?) = some r →
-    R s [.invoke r.obj r.h args kw] s
+  invoke : ∀ {s : Sess} {sub : Nat} {r : SubRec} (args : Args) (kw : List (Key × KwVal)), P s →
+    ((alookup sub s.subs).getD []).any (·.obj == r.obj) = true → R s [.invoke r.obj r.h args kw] s
 
 variable {R : Sess → List SOut → Sess → Prop} {P : Sess → Prop}
 
@@ -59,21 +59,21 @@ theorem Lift.runAct (L : Lift R P) {s : Sess} (hs : P s) (self : Option FutId) (
   · exact L.trans h1 (L.userError (L.post hs h1))
   · exact h1
 
-theorem Lift.dispatch (L : Lift R P) (fuel : Nat) {s : Sess} (hs : P s) (sub : SubId) (idx : Nat) (args : Args)
-    (kw : List (Key × KwVal)) (beh : List HAct) :
-    R s (dispatch fuel s sub idx args kw beh).2 (dispatch fuel s sub idx args kw beh).1 := by
-  induction fuel generalizing s idx kw beh with
-  | zero => exact L.refl hs
-  | succ n ih =>
+theorem Lift.dispatch (L : Lift R P) {s : Sess} (hs : P s) (sub : SubId) (args : Args)
+    (kw : List (Key × KwVal)) (l : List SubRec) (beh : List HAct) :
+    R s (dispatch s sub args kw l beh).2 (dispatch s sub args kw l beh).1 := by
+  induction l generalizing s beh with
+  | nil => exact L.refl hs
+  | cons r rest ih =>
     unfold Session.dispatch
     split
-    · exact L.refl hs
-    · next r hr =>
+    · next hr =>
       have h0 := L.invoke args (handlerKw r kw) hs hr
       have h1 := L.runAct hs (some r.obj) (beh.headD {})
-      have h2 := ih (L.post hs h1) (idx + 1) (if kw.isEmpty then kw else handlerKw r kw) beh.tail
+      have h2 := ih (L.post hs h1) beh.tail
       have := L.trans h0 (L.trans h1 h2)
       simpa using this
+    · exact ih hs beh
 
 
 theorem rejectList_nil (s : Sess) (o : Outcome) : rejectList s o [] = (s, []) := rfl
